@@ -440,3 +440,11 @@ PROPS['C18'] = {
 MANIFEST_TEXT['C18'] = {'claim': 'generated discovered-syscall multisets x blacklist x allow-list flag spellings x formats against the built profiler; set-algebra oracle on the emitted list and closure check (load through the configuration path, compile, interpret every table number)',
                         'note': 'black-box test of the built command with a fake disassembler; the interpreter and the configuration loader are the trusted base of the closure check',
                         'technique': 'property-based testing (rapid) with a set-algebra model; round trip through the configuration path and the compiler'}
+
+
+# ---- thorough tier only: native coverage-guided fuzz campaigns (bounded by time; a crasher is the reproducible unit) ----
+for _pid, _target in (('C06', 'FuzzC06Labels'), ('C07', 'FuzzC07Validation'), ('C16', 'FuzzC16Extraction'), ('C03', 'FuzzC03Conditions'), ('C05', 'FuzzC05Programs')):
+    PROPS[_pid]['units'].append({'fuzz': _target, 'tiers': ('thorough',), 'fuzztime': {'thorough': '90s'}, 'timeout': {'thorough': 600},
+                                 'helpers': ['kverify'] if _pid == 'C05' else []})
+
+PROPS['C01']['units'].append({'test': 'TestC01Sweep', 'tiers': ('thorough',), 'shards': {'thorough': 16}, 'timeout': {'thorough': 3000}})
